@@ -130,6 +130,16 @@ type LayerOpts struct {
 func RandLayer(r *mon.Rand, o LayerOpts) WLayer {
 	prot, iv := WireHeader(r, WireHeaderOpts{Protected: true, MaxEntries: o.MaxProt, Alg: o.Alg, FillTo: o.FillTo})
 	unprot, _ := WireHeader(r, WireHeaderOpts{Protected: false, MaxEntries: o.MaxUnprot, ForbidIV: iv != 0})
+	if iv != 0 && r.Intn(4) == 0 {
+		// the IV (or the Partial IV) of the protected bucket repeated under the same label in the unprotected
+		// one, as any other parameter may be (kid, content type, ... already are): the rule is about IV
+		// *together with* Partial IV, and one of them twice is not that
+		unprot.Kids = append(unprot.Kids, refcbor.NInt(iv), refcbor.NBstr(BytesValue(r)))
+		if c, err := refcbor.Parse(refcbor.Canon(unprot)); err == nil {
+			stripSpans(c)
+			unprot = c
+		}
+	}
 	if o.ScramblePct > 0 {
 		Scramble(r, prot, o.ScramblePct)
 		Scramble(r, unprot, o.ScramblePct)
